@@ -41,7 +41,11 @@ pub fn exec_case(case: &Case) -> CaseResult {
                 exec_corrupt_in_child(case)
             }
         }
-        Engine::LockRace => run_case(case, crate::lockrace::body),
+        Engine::LockRace => {
+            let mut r = run_case(case, crate::lockrace::body);
+            crate::lockrace::classify_findings(&mut r);
+            r
+        }
         _ => unimplemented!("engine {:?}", case.engine),
     }
 }
@@ -143,7 +147,7 @@ fn hist_spec(prop: &'static str, profile: Profile, rule: &'static str, probes: &
     }
 }
 
-fn run_child(case: &Case) -> (Option<CaseResult>, Option<Case>, Option<usize>, String) {
+pub fn run_child(case: &Case) -> (Option<CaseResult>, Option<Case>, Option<usize>, String) {
     use std::io::Write;
     let exe = match std::env::current_exe() {
         Ok(e) => e,
